@@ -483,7 +483,10 @@ func (x *Exec) loopHead(fr *Frame, b *ssa.BasicBlock, li *loopInfo, ins []edge, 
 	}
 	env := x.loopEnv(fr, b, st)
 	for i, inv := range lc.Invariants {
-		t := x.trBool(inv.Expr, env)
+		t, okc := x.trClause(fmt.Sprintf("L%d:%s", li.n, labelOr(inv.Label, i)), inv.Text, inv.Expr, env, b.Instrs[0].Pos())
+		if !okc {
+			continue
+		}
 		x.oblige("inv-init", fmt.Sprintf("L%d:%s", li.n, labelOr(inv.Label, i)), implies(reach, t), b.Instrs[0].Pos(), inv.Text)
 	}
 	// 2. havoc
@@ -528,8 +531,10 @@ func (x *Exec) loopHead(fr *Frame, b *ssa.BasicBlock, li *loopInfo, ins []edge, 
 	}
 	// 3. assume invariants
 	env = x.loopEnv(fr, b, st)
-	for _, inv := range lc.Invariants {
-		x.sc.assert(implies(reach, x.trBool(inv.Expr, env)))
+	for i, inv := range lc.Invariants {
+		if t, okc := x.trClause(fmt.Sprintf("L%d:%s", li.n, labelOr(inv.Label, i)), inv.Text, inv.Expr, env, b.Instrs[0].Pos()); okc {
+			x.sc.assert(implies(reach, t))
+		}
 	}
 	if lc.Decreases != nil {
 		li.variant0 = x.name("variant", "Int", x.trTerm(lc.Decreases, env))
@@ -577,7 +582,10 @@ func (x *Exec) loopBack(fr *Frame, from, to *ssa.BasicBlock, cond Term, st *Stat
 	}
 	env := x.loopEnv(fr, to, st)
 	for i, inv := range lc.Invariants {
-		t := x.trBool(inv.Expr, env)
+		t, okc := x.trClause(fmt.Sprintf("L%d:%s", li.n, labelOr(inv.Label, i)), inv.Text, inv.Expr, env, from.Instrs[len(from.Instrs)-1].Pos())
+		if !okc {
+			continue
+		}
 		x.oblige("inv-pres", fmt.Sprintf("L%d:%s", li.n, labelOr(inv.Label, i)), implies(cond, t), from.Instrs[len(from.Instrs)-1].Pos(), inv.Text)
 	}
 	if lc.Decreases != nil {
